@@ -29,33 +29,99 @@ package eval
 //@   ensures finDone == ite(walker == finalizeSet, store(old(finDone), root, true), old(finDone))
 //@   ensures Context != nil && Context == old(Context)
 //@   ensures Context.roots.arr == old(Context.roots.arr) || fresh(Context.roots)
-//@   modifies Context.Errors, Context.roots, Context.Stack, Context.dslPackages, elems(Context.roots), phase, dslDone, prepDone, valDone, finDone
+//   -- callbacks only add errors; validation failures arise only while validating, and the walker (validateSet,
+//   -- proved below) leaves every failure recorded
+//@   ensures old(Context.Errors) != nil ==> Context.Errors != nil
+//@   ensures walker != validateSet ==> valFailed == old(valFailed)
+//@   ensures (old(valFailed) ==> old(Context.Errors) != nil) ==> (valFailed ==> Context.Errors != nil)
+//@   modifies Context.Errors, Context.roots, Context.Stack, Context.dslPackages, elems(Context.roots), phase, dslDone, prepDone, valDone, finDone, valFailed
+
+// The expressions' own methods (environment). Entering a method moves the run to that method's phase; a
+// method may register roots and record errors; validation failures are the errors Validate returns.
+//   -- goa's convention (AddError "flattens"): an error returned by Validate reports a failure unless it wraps a
+//   -- *ValidationErrors that lists no error (many Validate methods return their always non-nil accumulator)
+//@ ghost spec var valFailed Bool
+//@ macro failure(e) = e != nil && (asVE(e) == 0 || len(ptr(*ValidationErrors, asVE(e)).Errors) > 0)
+//@ iface goa.design/goa/v3/eval.Preparer.Prepare
+//@   params e
+//@   requires* barrier: phase <= 2
+//@   requires* clean.before.prepare: phase < 2 ==> Context.Errors == nil
+//@   ensures phase == 2
+//@   ensures Context != nil && Context == old(Context)
+//@   ensures Context.roots.arr == old(Context.roots.arr) || fresh(Context.roots)
+//@   ensures old(Context.Errors) != nil ==> Context.Errors != nil
+//@   modifies Context.Errors, Context.roots, Context.Stack, Context.dslPackages, elems(Context.roots), phase
+//@ iface goa.design/goa/v3/eval.Validator.Validate
+//@   params e
+//@   requires* barrier: phase <= 3
+//@   ensures phase == 3
+//@   ensures valFailed == (old(valFailed) || failure(result))
+//@   ensures Context != nil && Context == old(Context)
+//@   ensures Context.roots.arr == old(Context.roots.arr) || fresh(Context.roots)
+//@   ensures old(Context.Errors) != nil ==> Context.Errors != nil
+//@   modifies Context.Errors, Context.roots, Context.Stack, Context.dslPackages, elems(Context.roots), phase, valFailed
+//@ iface goa.design/goa/v3/eval.Finalizer.Finalize
+//@   params e
+//@   requires* clean.before.finalize: phase < 4 ==> Context.Errors == nil
+//@   requires* valid.before.finalize: !valFailed
+//@   ensures phase == 4
+//@   ensures Context != nil && Context == old(Context)
+//@   ensures Context.roots.arr == old(Context.roots.arr) || fresh(Context.roots)
+//@   modifies Context.Errors, Context.roots, Context.Stack, Context.dslPackages, elems(Context.roots), phase
 
 //@ func prepareSet
 //@   params set
-//@   trusted
+//@   property C11
+//@   requires Context != nil && allocated(Context)
 //@   requires* barrier: phase <= 2
 //@   requires* clean.before.prepare: phase < 2 ==> Context.Errors == nil
 //@   ensures old(phase) <= phase && phase <= 2
 //@   ensures phase < 2 ==> Context.Errors == old(Context.Errors)
 //@   ensures Context.roots.arr == old(Context.roots.arr) || fresh(Context.roots)
+//@   ensures Context != nil && Context == old(Context)
+//@   ensures old(Context.Errors) != nil ==> Context.Errors != nil
+//@   loop 1 invariant run: Context != nil && Context == old(Context) && old(phase) <= phase && phase <= 2 && (phase < 2 ==> Context.Errors == old(Context.Errors)) && (Context.roots.arr == old(Context.roots.arr) || fresh(Context.roots)) && (old(Context.Errors) != nil ==> Context.Errors != nil)
 //@   modifies Context.Errors, Context.roots, Context.Stack, Context.dslPackages, elems(Context.roots), phase
 
+// AddError: a reported failure adds at least one error to the accumulator.
+//@ func (*ValidationErrors).AddError
+//@   params verr def err
+//@   property C11
+//@   requires verr != nil
+//@   ensures* failure.kept: old(failure(err)) ==> len(verr.Errors) > old(len(verr.Errors))
+//@   ensures len(verr.Errors) >= old(len(verr.Errors))
+//@   ensures (verr.Errors.arr == old(verr.Errors.arr) || fresh(verr.Errors)) && (verr.Expressions.arr == old(verr.Expressions.arr) || fresh(verr.Expressions))
+//@   modifies verr.Errors, verr.Expressions, elems(verr.Errors), elems(verr.Expressions)
+
+// validateSet: every validation failure of the set is recorded ("all errors of a phase are returned
+// together": a failure leaves Context.Errors non-nil, which is what RunDSL tests before finalizing).
 //@ func validateSet
 //@   params set
-//@   trusted
+//@   locals errors
+//@   property C11
+//@   requires Context != nil && allocated(Context)
 //@   requires* barrier: phase <= 3
+//@   requires recorded: valFailed ==> Context.Errors != nil
 //@   ensures old(phase) <= phase && phase <= 3
 //@   ensures Context.roots.arr == old(Context.roots.arr) || fresh(Context.roots)
-//@   modifies Context.Errors, Context.roots, Context.Stack, Context.dslPackages, elems(Context.roots), phase
+//@   ensures Context != nil && Context == old(Context)
+//@   ensures old(Context.Errors) != nil ==> Context.Errors != nil
+//@   ensures* failures.recorded: valFailed ==> Context.Errors != nil
+//@   loop 1 invariant run: Context != nil && Context == old(Context) && old(phase) <= phase && phase <= 3 && (Context.roots.arr == old(Context.roots.arr) || fresh(Context.roots)) && (old(Context.Errors) != nil ==> Context.Errors != nil) && errors != nil && sinceEntry(errors) && (valFailed ==> Context.Errors != nil || len(errors.Errors) > 0)
+//@   loop 1 invariant own.lists: (errors.Errors.arr == 0 || fresh(errors.Errors)) && (errors.Expressions.arr == 0 || fresh(errors.Expressions)) && len(errors.Errors) >= 0
+//@   modifies Context.Errors, Context.roots, Context.Stack, Context.dslPackages, elems(Context.roots), whole(elems(Context.Errors)), phase, valFailed
 
 //@ func finalizeSet
 //@   params set
-//@   trusted
+//@   property C11
+//@   requires Context != nil && allocated(Context) && phase <= 4
 //@   requires* clean.before.finalize: phase < 4 ==> Context.Errors == nil
+//@   requires* valid.before.finalize: !valFailed
 //@   ensures old(phase) <= phase && phase <= 4
 //@   ensures phase < 4 ==> Context.Errors == old(Context.Errors)
 //@   ensures Context.roots.arr == old(Context.roots.arr) || fresh(Context.roots)
+//@   ensures Context != nil && Context == old(Context)
+//@   loop 1 invariant run: Context != nil && Context == old(Context) && old(phase) <= phase && phase <= 4 && (phase < 4 ==> Context.Errors == old(Context.Errors)) && (Context.roots.arr == old(Context.roots.arr) || fresh(Context.roots)) && !valFailed
 //@   modifies Context.Errors, Context.roots, Context.Stack, Context.dslPackages, elems(Context.roots), phase
 
 // Roots (dependency sort): assumed here, checked by the bounded stand-in (all digraphs over <= 4 roots).
@@ -70,13 +136,15 @@ package eval
 //@ func RunDSL
 //@   locals roots executed start
 //@   property C11
-//@   requires Context != nil && phase == 0
+//@   requires Context != nil && allocated(Context) && phase == 0 && !valFailed
 //@   let n0 = len(old(Context.roots))
+//@   let rootsOwn = Context.roots.arr == old(Context.roots.arr) || fresh(Context.roots)
 //@   ensures* all.phases.complete: result == nil ==> forall i int :: 0 <= i && i < n0 ==> select(dslDone, old(Context.roots[i])) && select(prepDone, old(Context.roots[i])) && select(valDone, old(Context.roots[i])) && select(finDone, old(Context.roots[i]))
 //@   ensures* failed.never.finalized: result != nil ==> phase < 4
+//@   ensures* finalized.only.if.valid: phase == 4 ==> !valFailed
 //@   ensures* all.registered.executed: result == nil ==> forall i int :: 0 <= i && i < len(Context.roots) ==> select(dslDone, Context.roots[i])
-//@   loop 1 invariant outer: allocated(roots) && Context.roots.arr != roots.arr && 0 <= executed && executed <= len(roots) && phase <= 1 && Context != nil && len(roots) > 0 && fresh(roots) && (forall j int :: 0 <= j && j < executed ==> select(dslDone, roots[j])) && 0 <= n0 && (forall i int :: 0 <= i && i < n0 ==> 0 <= rootPos(i) && rootPos(i) < len(roots) && roots[rootPos(i)] == old(Context.roots[i]))
-//@   loop 2 invariant inner: allocated(roots) && Context.roots.arr != roots.arr && 0 - 1 <= rangeindex && 0 <= start && start <= len(roots) && executed == len(roots) && phase <= 1 && Context != nil && fresh(roots) && (forall j int :: 0 <= j && j < start + rangeindex + 1 ==> select(dslDone, roots[j])) && 0 <= n0 && (forall i int :: 0 <= i && i < n0 ==> 0 <= rootPos(i) && rootPos(i) < len(roots) && roots[rootPos(i)] == old(Context.roots[i]))
-//@   loop 3 invariant prepare: allocated(roots) && Context.roots.arr != roots.arr && 0 - 1 <= rangeindex#2 && phase <= 2 && Context != nil && fresh(roots) && (phase < 2 ==> Context.Errors == nil) && (forall j int :: 0 <= j && j < len(roots) ==> select(dslDone, roots[j])) && (forall j int :: 0 <= j && j <= rangeindex#2 ==> select(prepDone, roots[j])) && 0 <= n0 && (forall i int :: 0 <= i && i < n0 ==> 0 <= rootPos(i) && rootPos(i) < len(roots) && roots[rootPos(i)] == old(Context.roots[i]))
-//@   loop 4 invariant validate: allocated(roots) && Context.roots.arr != roots.arr && 0 - 1 <= rangeindex#3 && phase <= 3 && Context != nil && fresh(roots) && (forall j int :: 0 <= j && j < len(roots) ==> select(dslDone, roots[j])) && (forall j int :: 0 <= j && j < len(roots) ==> select(prepDone, roots[j])) && (forall j int :: 0 <= j && j <= rangeindex#3 ==> select(valDone, roots[j])) && 0 <= n0 && (forall i int :: 0 <= i && i < n0 ==> 0 <= rootPos(i) && rootPos(i) < len(roots) && roots[rootPos(i)] == old(Context.roots[i]))
-//@   loop 5 invariant finalize: allocated(roots) && Context.roots.arr != roots.arr && 0 - 1 <= rangeindex#4 && Context != nil && fresh(roots) && (phase < 4 ==> Context.Errors == nil) && (forall j int :: 0 <= j && j < len(roots) ==> select(dslDone, roots[j])) && (forall j int :: 0 <= j && j < len(roots) ==> select(prepDone, roots[j])) && (forall j int :: 0 <= j && j < len(roots) ==> select(valDone, roots[j])) && (forall j int :: 0 <= j && j <= rangeindex#4 ==> select(finDone, roots[j])) && 0 <= n0 && (forall i int :: 0 <= i && i < n0 ==> 0 <= rootPos(i) && rootPos(i) < len(roots) && roots[rootPos(i)] == old(Context.roots[i]))
+//@   loop 1 invariant outer: allocated(roots) && Context.roots.arr != roots.arr && 0 <= executed && executed <= len(roots) && phase <= 1 && Context != nil && len(roots) > 0 && fresh(roots) && (forall j int :: 0 <= j && j < executed ==> select(dslDone, roots[j])) && 0 <= n0 && (forall i int :: 0 <= i && i < n0 ==> 0 <= rootPos(i) && rootPos(i) < len(roots) && roots[rootPos(i)] == old(Context.roots[i])) && rootsOwn && allocated(Context) && !valFailed
+//@   loop 2 invariant inner: allocated(roots) && Context.roots.arr != roots.arr && 0 - 1 <= rangeindex && 0 <= start && start <= len(roots) && executed == len(roots) && phase <= 1 && Context != nil && fresh(roots) && (forall j int :: 0 <= j && j < start + rangeindex + 1 ==> select(dslDone, roots[j])) && 0 <= n0 && (forall i int :: 0 <= i && i < n0 ==> 0 <= rootPos(i) && rootPos(i) < len(roots) && roots[rootPos(i)] == old(Context.roots[i])) && rootsOwn && allocated(Context) && !valFailed
+//@   loop 3 invariant prepare: allocated(roots) && Context.roots.arr != roots.arr && 0 - 1 <= rangeindex#2 && phase <= 2 && Context != nil && fresh(roots) && (phase < 2 ==> Context.Errors == nil) && (forall j int :: 0 <= j && j < len(roots) ==> select(dslDone, roots[j])) && (forall j int :: 0 <= j && j <= rangeindex#2 ==> select(prepDone, roots[j])) && 0 <= n0 && (forall i int :: 0 <= i && i < n0 ==> 0 <= rootPos(i) && rootPos(i) < len(roots) && roots[rootPos(i)] == old(Context.roots[i])) && rootsOwn && allocated(Context) && !valFailed
+//@   loop 4 invariant validate: allocated(roots) && Context.roots.arr != roots.arr && 0 - 1 <= rangeindex#3 && phase <= 3 && Context != nil && fresh(roots) && (forall j int :: 0 <= j && j < len(roots) ==> select(dslDone, roots[j])) && (forall j int :: 0 <= j && j < len(roots) ==> select(prepDone, roots[j])) && (forall j int :: 0 <= j && j <= rangeindex#3 ==> select(valDone, roots[j])) && 0 <= n0 && (forall i int :: 0 <= i && i < n0 ==> 0 <= rootPos(i) && rootPos(i) < len(roots) && roots[rootPos(i)] == old(Context.roots[i])) && rootsOwn && allocated(Context) && (valFailed ==> Context.Errors != nil)
+//@   loop 5 invariant finalize: allocated(roots) && Context.roots.arr != roots.arr && 0 - 1 <= rangeindex#4 && Context != nil && fresh(roots) && (phase < 4 ==> Context.Errors == nil) && (forall j int :: 0 <= j && j < len(roots) ==> select(dslDone, roots[j])) && (forall j int :: 0 <= j && j < len(roots) ==> select(prepDone, roots[j])) && (forall j int :: 0 <= j && j < len(roots) ==> select(valDone, roots[j])) && (forall j int :: 0 <= j && j <= rangeindex#4 ==> select(finDone, roots[j])) && 0 <= n0 && (forall i int :: 0 <= i && i < n0 ==> 0 <= rootPos(i) && rootPos(i) < len(roots) && roots[rootPos(i)] == old(Context.roots[i])) && rootsOwn && allocated(Context) && !valFailed && phase <= 4
